@@ -54,3 +54,93 @@ Theorem tie_gob_register_iteration : forall registered has_registry hash0 fp,
               [("new hasher", []); ("hash package path and name", []);
                ("hash structure with a visited set of its own", []); ("gob.Register", [])])).
 Proof. intros [|] [|] hash0 fp; reflexivity. Qed.
+
+(* ---- recursiveTypeHash: pointers are dereferenced first; a type already met contributes nothing more (this is what
+   makes recursive types terminate); otherwise it is marked and, by kind: struct — every exported field contributes its
+   name (unless embedded) and then its type, recursively, with the SAME hasher and visited set; slice / array — the
+   element type; map — key type, then element type; anything else — its name ---- *)
+Inductive tkind := KStruct | KSlice | KArray | KMap | KOther.
+Definition kind_code (k : tkind) : Z := match k with KStruct => 25 | KSlice => 23 | KArray => 17 | KMap => 21 | KOther => 2 end.
+
+Definition rth_prims (k : tkind) : prims := fun f args s =>
+  match f, args with
+  | "t.Kind", [] => Some (VZ (kind_code k), s)
+  | "t.Elem", [] => Some (VPtr true "element type", s)
+  | "t.Key", [] => Some (VPtr true "key type", s)
+  | "t.String", [] => Some (VStr "name of the type", s)
+  | "[]byte", [v] => Some (v, s)
+  | "h.Write", [v] => Some (VTup [VZ 0; VNil], emit "hash" [v] s)
+  | "recursiveTypeHash", [ty; VPtr true "h"; VPtr true "met"] => Some (VNil, emit "recurse with the same hasher and visited set" [ty] s)
+  | _, _ => None
+  end.
+
+Definition rth_loop (k v : string) (c : value) (body : list gstmt) (s : st) : option st :=
+  match k, body with
+  | "$while", [GIf [] (GBin "!=" (GCall "t.Kind" []) (GInt 22)) [GBranch "break"] []; GAssign [GId "t"] [GCall "t.Elem" []]] =>
+      Some (emit "dereference pointers" [] s)
+  | "$for", _ => Some (emit "for each field" [] s)
+  | _, _ => None
+  end.
+
+Definition run_rth (met : bool) (k : tkind) : option (list effect) :=
+  run (rth_prims k) no_fcmp rth_loop (fun _ s => Some (eff s)) (fun _ => None) fn_recursiveTypeHash
+      [VPtr true "t"; VPtr true "h"; VPtr true "met"] [("met[t]", VB met)] (fun s => Some (eff s)).
+
+Theorem tie_recursive_type_hash : forall met k,
+  run_rth met k =
+  Some ([("dereference pointers", [])] ++
+        (if met then []
+         else [("assign met[t]", [VB true])] ++
+              match k with
+              | KStruct => [("for each field", [])]
+              | KSlice | KArray => [("recurse with the same hasher and visited set", [VPtr true "element type"])]
+              | KMap => [("recurse with the same hasher and visited set", [VPtr true "key type"]);
+                         ("recurse with the same hasher and visited set", [VPtr true "element type"])]
+              | KOther => [("hash", [VStr "name of the type"])]
+              end))%list.
+Proof. intros [|] [| | | |]; reflexivity. Qed.
+
+(* one field of a struct *)
+Definition field_body : option (gstmt * gexpr * gstmt * list gstmt) :=
+  match gf_body fn_recursiveTypeHash with
+  | [_; _; _; GSwitch (GCall "t.Kind" []) ((_, [GFor i c p body]) :: _)] => Some (i, c, p, body)
+  | _ => None
+  end.
+
+Definition fld_prims (exported : bool) : prims := fun f args s =>
+  match f, args with
+  | "t.Field", [VZ _] => Some (VPtr true "field", s)
+  | "$slice", [VStr n; VZ 0; VZ 1] => Some (VStr "first letter", s)
+  | "strings.ToLower", [VStr "first letter"] => Some (VStr (if exported then "first letter in lower case" else "first letter"), s)
+  | "[]byte", [v] => Some (v, s)
+  | "h.Write", [v] => Some (VTup [VZ 0; VNil], emit "hash" [v] s)
+  | "recursiveTypeHash", [ty; VPtr true "h"; VPtr true "met"] => Some (VNil, emit "recurse with the same hasher and visited set" [ty] s)
+  | _, _ => None
+  end.
+
+Definition run_field (exported anonymous : bool) : option (list effect * bool) :=
+  match field_body with
+  | Some (_, _, _, body) =>
+      exec_list (fld_prims exported) no_fcmp no_loop
+        (fun vs s => match vs with [VStr "continue"] => Some (eff s, true) | _ => None end) (fun _ => None) 40 body
+        (mkSt [("i", VZ 0); ("h", VPtr true "h"); ("met", VPtr true "met"); ("f.Name", VStr "Name");
+               ("f.Anonymous", VB anonymous); ("f.Type", VPtr true "type of the field")] [] [] [])
+        (fun s => Some (eff s, false))
+  | None => None
+  end.
+
+Theorem tie_type_hash_field : forall exported anonymous,
+  run_field exported anonymous =
+  Some (if exported
+        then ((if anonymous then [] else [("hash", [VStr "Name"])]) ++
+              [("recurse with the same hasher and visited set", [VPtr true "type of the field"])], false)%list
+        else ([], true)).
+Proof. intros [|] [|]; reflexivity. Qed.
+
+Theorem tie_type_hash_field_loop :
+  match field_body with
+  | Some (GAssign [GId i] [GInt 0], GBin "<" (GId i') (GCall "t.NumField" []), GAssign [GId i''] [GBin "+" (GId i''') (GInt 1)], _) =>
+      String.eqb i i' && String.eqb i i'' && String.eqb i i''' = true
+  | _ => False
+  end.
+Proof. reflexivity. Qed.
